@@ -59,6 +59,9 @@ type seqInst struct {
 	everStarted    bool
 	loadFaultFree  bool
 	onLoad         func(r any) (*ctlog.Log, error)
+	runseqCancel   context.CancelFunc
+	runseqMode     bool
+	stopLockLen    int
 	roundAdded     []tileLeaf
 	roundFrom      int64
 	roundCommitted bool
@@ -77,8 +80,9 @@ type seqSub struct {
 	err    error
 	got    bool
 	seq    int
-	le      any
-	dropped bool
+	le        any
+	dropped   bool
+	afterStop bool
 }
 
 type seqWorld struct {
@@ -106,6 +110,8 @@ type seqWorld struct {
 	logbuf  *bytes.Buffer
 
 	graveyard []*ctlog.Log
+	mute      bool
+	autoClock bool
 }
 
 type lockedCk struct {
@@ -116,6 +122,14 @@ type lockedCk struct {
 func (c *lockedCk) Bytes() []byte { return c.data }
 
 var errInjected = errors.New("injected storage error")
+
+// injErr is the error an injected fault surfaces as: a plain one, or one wrapping a deadline.
+func injErr(op *pendingOp) error {
+	if op != nil && op.deadline {
+		return fmt.Errorf("%w: %w", errInjected, context.DeadlineExceeded)
+	}
+	return errInjected
+}
 
 // ---- the shared clock (hook installed once per process)
 
@@ -128,6 +142,11 @@ func installClock() {
 			return time.Now().UnixMilli()
 		}
 		w.mu.Lock()
+		if w.autoClock {
+			if a := w.sched.current; a != nil && a.kind == "runseq" {
+				w.clock += 1 + int64(w.nEvents%7)
+			}
+		}
 		v := w.clock
 		w.mu.Unlock()
 		inst := -1
@@ -140,8 +159,13 @@ func installClock() {
 }
 
 func (w *seqWorld) ev(format string, a ...any) {
-	w.tr.Line("ev "+format, a...)
 	w.nEvents++
+	if w.mute {
+		// oracle-only scenario (RunSequencer-driven): no trace for the model, but keep the shape digest
+		w.tr.ShapeOnly(fmt.Sprintf("ev "+format, a...))
+		return
+	}
+	w.tr.Line("ev "+format, a...)
 }
 
 // ---- Backend
@@ -223,7 +247,7 @@ func (b *instBackend) Upload(ctx context.Context, key string, data []byte, opts 
 	w.ev("%d upload %s %s %s %s", b.inst, key, sqOptsOf(opts), b.payloadToken(key, data, opts), res)
 	w.orc.onUpload(b.inst, key, data, opts, apply)
 	if res != "ok" {
-		return fmt.Errorf("upload %s: %w (%s)", key, errInjected, res)
+		return fmt.Errorf("upload %s: %w (%s)", key, injErr(op), res)
 	}
 	return nil
 }
@@ -237,7 +261,7 @@ func (b *instBackend) Fetch(ctx context.Context, key string) ([]byte, error) {
 	w.mu.Unlock()
 	if out != outOK {
 		w.ev("%d fetch %s err", b.inst, key)
-		return nil, fmt.Errorf("fetch %s: %w", key, errInjected)
+		return nil, fmt.Errorf("fetch %s: %w", key, injErr(op))
 	}
 	if !ok {
 		w.ev("%d fetch %s nf", b.inst, key)
@@ -263,7 +287,7 @@ func (b *instBackend) Discard(ctx context.Context, key string) error {
 	w.ev("%d discard %s %s", b.inst, key, res)
 	w.orc.onDiscard(b.inst, key, (out == outOK || out == outErrA) && ok)
 	if res != "ok" {
-		return fmt.Errorf("discard %s: %w (%s)", key, errInjected, res)
+		return fmt.Errorf("discard %s: %w (%s)", key, injErr(op), res)
 	}
 	return nil
 }
@@ -284,7 +308,7 @@ func (l *instLock) Fetch(ctx context.Context, logID [sha256.Size]byte) (ctlog.Lo
 	w.mu.Unlock()
 	if out != outOK {
 		w.ev("%d lockfetch err", l.inst)
-		return nil, fmt.Errorf("lock fetch: %w", errInjected)
+		return nil, fmt.Errorf("lock fetch: %w", injErr(op))
 	}
 	if !ok {
 		w.ev("%d lockfetch nf", l.inst)
@@ -316,7 +340,7 @@ func (l *instLock) Create(ctx context.Context, logID [sha256.Size]byte, new []by
 	w.ev("%d lockcreate %s %s", l.inst, c.Token(), res)
 	w.orc.onLockWrite(l.inst, nil, c, applied, res)
 	if res != "ok" {
-		return fmt.Errorf("lock create: %w (%s)", errInjected, res)
+		return fmt.Errorf("lock create: %w (%s)", injErr(op), res)
 	}
 	return nil
 }
@@ -348,7 +372,7 @@ func (l *instLock) Replace(ctx context.Context, old ctlog.LockedCheckpoint, new 
 	w.ev("%d lockreplace %s %s %s", l.inst, oi.Token(), c.Token(), res)
 	w.orc.onLockWrite(l.inst, oi, c, applied, res)
 	if res != "ok" {
-		return nil, fmt.Errorf("lock replace: %w (%s)", errInjected, res)
+		return nil, fmt.Errorf("lock replace: %w (%s)", injErr(op), res)
 	}
 	return &lockedCk{logID: w.logID, data: bytes.Clone(new)}, nil
 }
